@@ -103,9 +103,34 @@ def gen_case(rng, tier, index):
 def directed_cases(tier):
     """Wrong live-build-id prediction with an archive that already holds everything for the
     commit that is really checked out: after the restart nothing may be built."""
-    return [{"live": True, "prefilled": True, "move": "after-lsremote", "mode": "yes", "drop": d, "jobs": j,
-             "seed": 7 + j, "salt": "d%d" % j}
-            for d, j in ((["lib", "root"], 1), (["lib", "mid", "root"], 4))]
+    out = [{"live": True, "prefilled": True, "move": "after-lsremote", "mode": "yes", "drop": d, "jobs": j,
+            "seed": 7 + j, "salt": "d%d" % j}
+           for d, j in ((["lib", "root"], 1), (["lib", "mid", "root"], 4))]
+    # a workspace that got everything by download (never checked anything out, only predictions are
+    # stored), then a source edit with unchanged recipes, then another download-enabled build
+    import random
+    rng = random.Random(707)
+    tries = 0
+    while len(out) < (8 if tier == "thorough" else 4) and tries < 200:
+        tries += 1
+        model = projgen.gen_valid_project(rng, nmin=3, nmax=5, features={"import", "diamond"} | set(rng.sample(
+            ["vars", "tools", "fingerprint", "classes"], rng.randint(0, 2))))
+        if not model["sources"] or not all_reloc(model):
+            continue
+        e = projgen.gen_edit(rng, model, [model], ["src_modify", "src_add"])
+        if e is None:
+            continue
+        mode2 = rng.choice(["yes", "deps", "forced-fallback", "yes"])
+        ops = [{"ws": "A", "host": "h1", "upload": True, "mode": "no", "jobs": 2, "seed": rng.getrandbits(32), "fresh": True},
+               {"ws": "B", "host": "h1", "upload": False, "mode": "forced", "jobs": 1, "seed": rng.getrandbits(32),
+                "expect_all_downloaded": True, "fresh": True},
+               {"ws": "B", "edit": e},
+               {"ws": "B", "host": "h1", "upload": False, "mode": mode2, "jobs": rng.choice([1, 2]), "seed": rng.getrandbits(32)},
+               {"ws": "A", "sync_from": "B"},
+               {"ws": "A", "host": "h1", "upload": True, "mode": "no", "jobs": 1, "seed": rng.getrandbits(32)},
+               {"ws": "B", "host": "h1", "upload": False, "mode": "yes", "jobs": 1, "seed": rng.getrandbits(32)}]
+        out.append({"model": model, "wss": ["A", "B"], "ops": ops, "directed": "download-only workspace, then source edit"})
+    return out
 
 def all_reloc(model):
     """A non-relocatable package tags its Build-Id (and that of everything depending
